@@ -3,7 +3,7 @@
 d=$1; id=$(basename $d)
 pv=/tmp/pv/$id; pr=/tmp/pr/$id
 mkdir -p /tmp/pv /tmp/pr
-rm -rf $pv; rsync -a --exclude .git --exclude replays --exclude seeded --exclude benign /verif/ $pv/
+rm -rf $pv; rsync -a --exclude .git --exclude replays --exclude seeded --exclude benign ${SRC:-/verif}/ $pv/
 git -C /repo worktree remove --force $pr 2>/dev/null
 git -C /repo worktree add -q --detach $pr HEAD && git -C $pr apply /verif/$d/patch.diff || { echo "$id: cannot prepare repo copy"; exit 2; }
 for pid in $(python3 -c "import json;print(' '.join(json.load(open('/verif/$d/meta.json'))['caught_by']))"); do
